@@ -48,9 +48,15 @@ var glTargets = []glTarget{
 	{pkg: "net", recv: "", name: "IsPrivateAddress"},
 	{pkg: "net", recv: "", name: "RequirePublicIP"},
 	{pkg: "ipinfo", recv: "", name: "GetIPInfoFromIP"},
+	{pkg: "prometheus", recv: "tunnelTimeMetrics", name: "reportTunnelTime", opaque: map[string]bool{"asnLabel": true}},
+	{pkg: "prometheus", recv: "tunnelTimeMetrics", name: "startConnection"},
+	{pkg: "prometheus", recv: "tunnelTimeMetrics", name: "stopConnection", opaque: map[string]bool{"asnLabel": true}},
+	{pkg: "prometheus", recv: "tunnelTimeMetrics", name: "Collect", opaque: map[string]bool{"asnLabel": true}},
 }
 
 type glExtra struct{ name, typ string }
+
+type glAlias struct{ home, key ast.Expr }
 
 type glFn struct {
 	t       glTarget
@@ -65,6 +71,11 @@ type glFn struct {
 	nilRet  string
 	inLit   bool
 	names   map[types.Object]string
+	nres      int   // number of Go results
+	recvInOut bool  // the receiver is threaded through
+	ptrParams []int // indices of pointer parameters that are threaded through
+	alias     map[types.Object]glAlias // pointer local -> where its object lives (a map element)
+	ptrLocal  map[types.Object]string    // pointer locals with a nil flag: name of the flag
 	used    map[string]bool
 	g       *golean
 }
@@ -76,6 +87,7 @@ type golean struct {
 	structs map[string]*types.Named // lean name -> type
 	sorder  []string
 	effs    map[string]bool // lean struct names that need an eff field
+	keyStructs map[string]bool // lean struct names used as map keys (need DecidableEq)
 	strMode map[string]bool // lean struct name -> strBytes mode it was first used with
 }
 
@@ -85,7 +97,7 @@ var leanKeywords = map[string]bool{"end": true, "from": true, "at": true, "in": 
 	"return": true, "for": true, "mut": true, "by": true, "Type": true, "Prop": true, "Sort": true, "set_option": true, "deriving": true,
 	"private": true, "protected": true, "partial": true, "unsafe": true, "macro": true, "syntax": true, "notation": true, "prefix": true,
 	"infix": true, "postfix": true, "abbrev": true, "axiom": true, "example": true, "inductive": true, "class": true, "extends": true, "try": true,
-	"catch": true, "finally": true, "unless": true, "break": true, "continue": true, "calc": true, "exact": true, "using": true, "opaque": true, "info": false}
+	"catch": true, "finally": true, "unless": true, "break": true, "continue": true, "calc": true, "exact": true, "using": true, "opaque": true, "exists": true, "forall": true, "fun_": false, "info": false}
 
 func lid(s string) string {
 	if leanKeywords[s] {
@@ -182,6 +194,8 @@ func (g *golean) leanType(t types.Type, strBytes bool, f *glFn) string {
 		switch u.Kind() {
 		case types.Int, types.Int64, types.Int32, types.UntypedInt:
 			return "Int"
+		case types.Float64:
+			return "Int" // only ever a number of nanoseconds handed to a metric (GoRT.seconds)
 		case types.Uint8:
 			return "UInt8"
 		case types.Uint32:
@@ -199,7 +213,11 @@ func (g *golean) leanType(t types.Type, strBytes bool, f *glFn) string {
 	case *types.Array:
 		return "(List " + g.leanType(u.Elem(), strBytes, f) + ")"
 	case *types.Map:
-		return "(GoMap " + g.leanType(u.Key(), strBytes, f) + " " + g.leanType(u.Elem(), strBytes, f) + ")"
+		kt := g.leanType(u.Key(), strBytes, f)
+		if _, isStruct := g.structs[kt]; isStruct {
+			g.keyStructs[kt] = true
+		}
+		return "(GoMap " + kt + " " + g.leanType(u.Elem(), strBytes, f) + ")"
 	case *types.Struct:
 		if u.NumFields() == 0 {
 			return "Unit"
@@ -212,6 +230,10 @@ func (g *golean) leanType(t types.Type, strBytes bool, f *glFn) string {
 		case *types.Struct:
 			if uu.NumFields() == 0 {
 				return "Unit"
+			}
+			if !isRepoType(u) {
+				// a value of a standard-library struct type the code only compares and passes on
+				return "(Opaque " + leanStr(u.Obj().Pkg().Name()+"."+u.Obj().Name()) + ")"
 			}
 			name := u.Obj().Name()
 			if _, ok := g.structs[name]; !ok {
@@ -251,10 +273,10 @@ func (g *golean) fieldKept(v *types.Var) bool {
 			return false
 		}
 	}
-	if _, ok := t.Underlying().(*types.Interface); ok {
+	if v.Embedded() {
 		return false
 	}
-	if v.Embedded() {
+	if _, ok := t.Underlying().(*types.Chan); ok {
 		return false
 	}
 	return true
@@ -328,6 +350,11 @@ func (f *glFn) constOf(e ast.Expr) (string, bool) {
 }
 
 func isIntLean(lt string) bool { return lt == "Int" }
+
+func isFloat(t types.Type) bool {
+	b, ok := t.Underlying().(*types.Basic)
+	return ok && b.Info()&types.IsFloat != 0
+}
 
 func (f *glFn) expr(e ast.Expr) string {
 	if c, ok := f.constOf(e); ok {
@@ -619,6 +646,13 @@ func (f *glFn) call(c *ast.CallExpr, value bool) string {
 	obj := f.calleeObj(c)
 	fn, _ := obj.(*types.Func)
 	if fn == nil {
+		// the stubbable clock of the metrics package: `var now = time.Now`
+		if v, ok := obj.(*types.Var); ok && v.Name() == "now" && v.Parent() == v.Pkg().Scope() && len(c.Args) == 0 {
+			if sg, ok := v.Type().(*types.Signature); ok && sg.Results().Len() == 1 && isNamed(sg.Results().At(0).Type(), "time", "Time") {
+				f.addExtra("now", "Int")
+				return "now"
+			}
+		}
 		return f.fail(c, "call of a function value %s", exprString(c.Fun))
 	}
 	pkgPath := ""
@@ -648,6 +682,8 @@ func (f *glFn) call(c *ast.CallExpr, value bool) string {
 		return "(decide (" + f.expr(sel.X) + " > " + f.expr(c.Args[0]) + "))"
 	case "time.Time.Before":
 		return "(decide (" + f.expr(sel.X) + " < " + f.expr(c.Args[0]) + "))"
+	case "time.Duration.Seconds":
+		return "(GoRT.seconds " + f.expr(sel.X) + ")"
 	case "errors.New":
 		return "(some " + f.strLit(c.Args[0]) + ")"
 	case "fmt.Errorf":
@@ -687,8 +723,63 @@ func (f *glFn) call(c *ast.CallExpr, value bool) string {
 	if strings.HasSuffix(full, "outline-ss-server/net.NewConnectionError") {
 		return "(some " + f.strLit(c.Args[0]) + ")"
 	}
-	// --- opaque package-level functions and interface methods: parameters ---
 	sig := fn.Type().(*types.Signature)
+	// String() of a named string type is the string
+	if sel != nil && fn.Name() == "String" && len(c.Args) == 0 {
+		if b, ok := f.typeOf(sel.X).Underlying().(*types.Basic); ok && b.Info()&types.IsString != 0 {
+			return f.expr(sel.X)
+		}
+	}
+	// prometheus vectors: <recv>.<vec>.WithLabelValues(labels...).Add(v) is recorded as an effect of <recv>;
+	// Collect / Describe export what has been recorded and change nothing
+	if rp == "github.com/prometheus/client_golang/prometheus" || strings.HasPrefix(rp, "github.com/prometheus/client_golang/prometheus") {
+		if (fn.Name() == "Collect" || fn.Name() == "Describe") && !value {
+			return ""
+		}
+		if (fn.Name() == "Add" || fn.Name() == "Inc" || fn.Name() == "Observe") && !value && sel != nil {
+			if inner, ok := sel.X.(*ast.CallExpr); ok {
+				if isel, ok := inner.Fun.(*ast.SelectorExpr); ok && isel.Sel.Name == "WithLabelValues" {
+					if vsel, ok := isel.X.(*ast.SelectorExpr); ok {
+						root := f.rootIdent(vsel.X)
+						if root != "" {
+							var labels []string
+							for _, a := range inner.Args {
+								if f.leanType(f.typeOf(a)) != "String" {
+									return f.fail(c, "label value of type %s", f.typeOf(a))
+								}
+								labels = append(labels, f.expr(a))
+							}
+							var as []string
+							for _, a := range c.Args {
+								if f.leanType(f.typeOf(a)) != "Int" && !isFloat(f.typeOf(a)) {
+									return f.fail(c, "metric value of type %s", f.typeOf(a))
+								}
+								as = append(as, f.expr(a))
+							}
+							f.g.effs[f.rootStruct(vsel.X)] = true
+							return lid(root) + " := { " + lid(root) + " with eff := " + lid(root) + ".eff ++ [{ name := " + leanStr(vsel.Sel.Name+"."+fn.Name()) +
+								", args := [" + strings.Join(as, ", ") + "], strs := [" + strings.Join(labels, ", ") + "] }] }"
+						}
+					}
+				}
+			}
+		}
+	}
+	// a method of a standard-library value the code does not look into (netip.Addr.AsSlice ...): a parameter
+	if sel != nil && rn != "" && !strings.HasPrefix(rp, "github.com/Jigsaw-Code/outline-ss-server") && value {
+		if strings.HasPrefix(f.leanType(f.typeOf(sel.X)), "(Opaque ") {
+			pname := lid(strings.ReplaceAll(rn, ".", "_") + "_" + fn.Name())
+			ats := []string{f.leanType(f.typeOf(sel.X))}
+			as := []string{f.expr(sel.X)}
+			for i := 0; i < sig.Params().Len(); i++ {
+				ats = append(ats, f.leanType(sig.Params().At(i).Type()))
+				as = append(as, f.expr(c.Args[i]))
+			}
+			f.addExtra(pname, strings.Join(ats, " → ")+" → "+f.resultType(sig))
+			return "(" + pname + " " + strings.Join(as, " ") + ")"
+		}
+	}
+	// --- opaque package-level functions and interface methods: parameters ---
 	if rn == "" && f.t.opaque[fn.Name()] {
 		var ats []string
 		var as []string
@@ -715,7 +806,7 @@ func (f *glFn) call(c *ast.CallExpr, value bool) string {
 					as = append(as, f.expr(a))
 				}
 				f.g.effs[f.rootStruct(sel.X)] = true
-				return lid(root) + " := { " + lid(root) + " with eff := " + lid(root) + ".eff ++ [⟨" + leanStr(fn.Name()) + ", [" + strings.Join(as, ", ") + "]⟩] }"
+				return lid(root) + " := { " + lid(root) + " with eff := " + lid(root) + ".eff ++ [{ name := " + leanStr(fn.Name()) + ", args := [" + strings.Join(as, ", ") + "] }] }"
 			}
 			// used result: a parameter function taking the interface token
 			pname := lid(rn + "_" + fn.Name())
@@ -741,11 +832,41 @@ func (f *glFn) call(c *ast.CallExpr, value bool) string {
 			as = append(as, f.expr(sel.X))
 		}
 		for _, a := range c.Args {
+			if _, isChan := f.typeOf(a).Underlying().(*types.Chan); isChan {
+				continue
+			}
 			as = append(as, f.expr(a))
 		}
 		name := callee.leanName()
 		if len(callee.inouts) > 0 {
-			return f.fail(c, "call of a translated function with in-out parameters (not needed so far)")
+			if value || callee.nres > 0 {
+				return f.fail(c, "call of a translated function with in-out parameters in value position")
+			}
+			// the in-outs come back as a tuple: receiver first, then the pointer parameters in order
+			var lhs []ast.Expr
+			if rn != "" && callee.recvInOut {
+				lhs = append(lhs, sel.X)
+			}
+			for _, i := range callee.ptrParams {
+				lhs = append(lhs, c.Args[i])
+			}
+			f.tmp++
+			t := fmt.Sprintf("t__%d", f.tmp)
+			out := "let " + t + " ← " + name + " " + strings.Join(as, " ")
+			for i, l := range lhs {
+				proj := t
+				for j := 0; j < i; j++ {
+					proj += ".2"
+				}
+				if i < len(lhs)-1 {
+					proj += ".1"
+				}
+				out += "\n" + f.assign(l, proj)
+				if wb := f.writeBack(l); wb != "" {
+					out += "\n" + wb
+				}
+			}
+			return out
 		}
 		return "(← " + name + " " + strings.Join(as, " ") + ")"
 	}
@@ -822,6 +943,125 @@ func (f *glFn) rootStruct(e ast.Expr) string {
 	}
 }
 
+// ---- pointer locals: value semantics with write-back, and a nil flag ----
+
+func isPtrToRepoStruct(t types.Type) bool {
+	p, ok := t.(*types.Pointer)
+	if !ok {
+		return false
+	}
+	_, isS := p.Elem().Underlying().(*types.Struct)
+	return isS && isRepoType(p.Elem())
+}
+
+func (f *glFn) objOf(e ast.Expr) types.Object {
+	id, ok := e.(*ast.Ident)
+	if !ok {
+		return nil
+	}
+	if o := f.p.TypesInfo.Defs[id]; o != nil {
+		return o
+	}
+	return f.p.TypesInfo.Uses[id]
+}
+
+func (f *glFn) rootObj(e ast.Expr) (types.Object, bool) {
+	bare := true
+	for {
+		switch x := e.(type) {
+		case *ast.Ident:
+			return f.objOf(x), bare
+		case *ast.SelectorExpr:
+			e, bare = x.X, false
+		case *ast.ParenExpr:
+			e = x.X
+		case *ast.StarExpr:
+			e = x.X
+		case *ast.IndexExpr:
+			e, bare = x.X, false
+		default:
+			return nil, false
+		}
+	}
+}
+
+// writeBack: after a mutation through the pointer local at the root of lhs, store the object back where it lives
+func (f *glFn) writeBack(lhs ast.Expr) string {
+	obj, _ := f.rootObj(lhs)
+	if obj == nil {
+		return ""
+	}
+	a, ok := f.alias[obj]
+	if !ok {
+		return ""
+	}
+	return f.assign(a.home, "(GoMap.insert "+f.expr(a.home)+" "+f.expr(a.key)+" "+f.nameOf(obj, obj.Name())+")")
+}
+
+func (f *glFn) setAlias(obj types.Object, home, key ast.Expr) {
+	if f.alias == nil {
+		f.alias = map[types.Object]glAlias{}
+	}
+	f.alias[obj] = glAlias{home, key}
+}
+
+func (f *glFn) nilFlag(obj types.Object) string {
+	if f.ptrLocal == nil {
+		f.ptrLocal = map[types.Object]string{}
+	}
+	if n, ok := f.ptrLocal[obj]; ok {
+		return n
+	}
+	n := f.nameOf(obj, obj.Name()) + "_isNil"
+	f.ptrLocal[obj] = n
+	return n
+}
+
+// derefGuards: a statement that goes through a pointer local panics in Go when the pointer is nil
+func (f *glFn) derefGuards(s ast.Stmt, ind int) {
+	seen := map[string]bool{}
+	var visit func(n ast.Node) bool
+	visit = func(n ast.Node) bool {
+		switch x := n.(type) {
+		case *ast.BlockStmt, *ast.FuncLit:
+			return false // nested statements get their own guards
+		case *ast.IfStmt:
+			if x.Init != nil {
+				ast.Inspect(x.Init, visit)
+			}
+			ast.Inspect(x.Cond, visit)
+			return false
+		case *ast.RangeStmt:
+			ast.Inspect(x.X, visit)
+			return false
+		case *ast.ForStmt:
+			return false
+		case *ast.SelectorExpr:
+			if id, ok := x.X.(*ast.Ident); ok {
+				if obj := f.objOf(id); obj != nil {
+					if flag, ok := f.ptrLocal[obj]; ok && !seen[flag] {
+						seen[flag] = true
+						f.emit(ind, "if "+flag+" then (← (none : Option Unit))")
+					}
+				}
+			}
+		case *ast.CallExpr:
+			for _, a := range x.Args {
+				if id, ok := a.(*ast.Ident); ok {
+					if obj := f.objOf(id); obj != nil {
+						if flag, ok := f.ptrLocal[obj]; ok && !seen[flag] && isPtrToRepoStruct(obj.Type()) {
+							seen[flag] = true
+							f.emit(ind, "if "+flag+" then (← (none : Option Unit))")
+						}
+					}
+				}
+			}
+		}
+		return true
+	}
+	ast.Inspect(s, visit)
+}
+
 // ---- statements ----
 
 // assign produces the `do` statement that stores rhs (a Lean expression) into the Go lvalue lhs.
@@ -886,6 +1126,7 @@ func (f *glFn) define(id *ast.Ident, rhs string) string {
 }
 
 func (f *glFn) stmt(s ast.Stmt, ind int) {
+	f.derefGuards(s, ind)
 	switch x := s.(type) {
 	case *ast.BlockStmt:
 		f.block(x.List, ind)
@@ -936,6 +1177,7 @@ func (f *glFn) stmt(s ast.Stmt, ind int) {
 				r = f.fail(s, "bit operation on int")
 			}
 			f.emit(ind, f.assign(x.Lhs[0], r))
+			f.afterStore(x.Lhs[0], nil, ind)
 			return
 		}
 		if len(x.Rhs) == 1 && len(x.Lhs) == 2 {
@@ -950,6 +1192,18 @@ func (f *glFn) stmt(s ast.Stmt, ind int) {
 					}
 					if id, ok := x.Lhs[1].(*ast.Ident); !ok || id.Name != "_" {
 						f.emit(ind, f.defOrAssign(x, 1, okv))
+					}
+					if isPtrToRepoStruct(m.Elem()) {
+						if obj := f.objOf(x.Lhs[0]); obj != nil {
+							f.setAlias(obj, ie.X, ie.Index)
+							_, had := f.ptrLocal[obj]
+							flag := f.nilFlag(obj)
+							if had {
+								f.emit(ind, flag+" := (!"+okv+")")
+							} else {
+								f.emit(ind, "let mut "+flag+" := (!"+okv+")")
+							}
+						}
 					}
 					return
 				}
@@ -981,12 +1235,14 @@ func (f *glFn) stmt(s ast.Stmt, ind int) {
 			return
 		}
 		f.emit(ind, f.defOrAssign(x, 0, f.exprAs(x.Rhs[0], f.typeOf(x.Lhs[0]))))
+		f.afterStore(x.Lhs[0], x.Rhs[0], ind)
 	case *ast.IncDecStmt:
 		op := " + 1"
 		if x.Tok == token.DEC {
 			op = " - 1"
 		}
 		f.emit(ind, f.assign(x.X, "("+f.expr(x.X)+op+")"))
+		f.afterStore(x.X, nil, ind)
 	case *ast.ExprStmt:
 		c, ok := x.X.(*ast.CallExpr)
 		if !ok {
@@ -1003,7 +1259,10 @@ func (f *glFn) stmt(s ast.Stmt, ind int) {
 			f.stmt(x.Init, ind)
 		}
 		f.emit(ind, "if "+f.expr(x.Cond)+" then")
+		before := f.copyAlias()
 		f.block(x.Body.List, ind+1)
+		afterThen := f.copyAlias()
+		f.alias = before
 		if x.Else != nil {
 			f.emit(ind, "else")
 			switch el := x.Else.(type) {
@@ -1012,6 +1271,9 @@ func (f *glFn) stmt(s ast.Stmt, ind int) {
 			default:
 				f.stmt(el, ind+1)
 			}
+		}
+		if !f.sameAlias(afterThen, !endsInReturn(x.Body)) {
+			f.fail(x, "a pointer local lives in different places after the two branches")
 		}
 	case *ast.ReturnStmt:
 		var parts []string
@@ -1048,8 +1310,33 @@ func (f *glFn) stmt(s ast.Stmt, ind int) {
 			}
 			f.block(x.Body.List, ind+1)
 		case *types.Map:
-			_ = u
-			f.fail(s, "range over a map (iteration order)")
+			// iteration order: the order of the association list (Go's is unspecified; the tie theorems must
+			// not depend on it).  Keys are taken when the loop starts, each value when its turn comes.
+			hasDelete := false
+			ast.Inspect(x.Body, func(n ast.Node) bool {
+				if c, ok := n.(*ast.CallExpr); ok {
+					if id, ok := c.Fun.(*ast.Ident); ok && id.Name == "delete" {
+						hasDelete = true
+					}
+				}
+				return true
+			})
+			if hasDelete || x.Key == nil {
+				f.fail(s, "range over a map that deletes, or without a key variable")
+				return
+			}
+			kid := x.Key.(*ast.Ident)
+			f.emit(ind, "for "+f.idName(kid)+" in (GoMap.keys "+coll+") do")
+			if x.Value != nil {
+				vid := x.Value.(*ast.Ident)
+				f.emit(ind+1, "let mut "+f.idName(vid)+" := ((GoMap.get? "+coll+" "+f.idName(kid)+").getD "+f.g.zero(u.Elem(), f.t.strBytes)+")")
+				if isPtrToRepoStruct(u.Elem()) {
+					if obj := f.objOf(vid); obj != nil {
+						f.setAlias(obj, x.X, kid)
+					}
+				}
+			}
+			f.block(x.Body.List, ind+1)
 		default:
 			f.fail(s, "range over %s", f.typeOf(x.X))
 		}
@@ -1099,6 +1386,43 @@ func (f *glFn) stmt(s ast.Stmt, ind int) {
 	}
 }
 
+// afterStore keeps the pointer bookkeeping: a store THROUGH a pointer local is written back to where its
+// object lives; a store OF a fresh object into the pointer local forgets where the old one lived; a store of
+// the pointer local into a map element makes that element its home.
+func (f *glFn) afterStore(lhs, rhs ast.Expr, ind int) {
+	obj, bare := f.rootObj(lhs)
+	if obj != nil && !bare {
+		if _, isPtr := f.ptrLocalOrAlias(obj); isPtr {
+			f.emit(ind, f.writeBack(lhs))
+		}
+	}
+	if obj != nil && bare && isPtrToRepoStruct(obj.Type()) && rhs != nil {
+		delete(f.alias, obj)
+		// &T{...} is never nil
+		if u, ok := rhs.(*ast.UnaryExpr); ok && u.Op == token.AND {
+			if flag, ok := f.ptrLocal[obj]; ok {
+				f.emit(ind, flag+" := false")
+			}
+		} else if !isNilIdent(rhs) {
+			f.fail(lhs, "pointer local assigned from %s", exprString(rhs))
+		}
+	}
+	if ie, ok := lhs.(*ast.IndexExpr); ok && rhs != nil {
+		if m, ok := f.typeOf(ie.X).Underlying().(*types.Map); ok && isPtrToRepoStruct(m.Elem()) {
+			if robj := f.objOf(rhs); robj != nil {
+				f.setAlias(robj, ie.X, ie.Index)
+			}
+		}
+	}
+}
+
+func (f *glFn) ptrLocalOrAlias(obj types.Object) (string, bool) {
+	if _, ok := f.alias[obj]; ok {
+		return "", true
+	}
+	return "", false
+}
+
 func (f *glFn) defOrAssign(x *ast.AssignStmt, i int, rhs string) string {
 	if x.Tok == token.DEFINE {
 		if id, ok := x.Lhs[i].(*ast.Ident); ok {
@@ -1106,6 +1430,40 @@ func (f *glFn) defOrAssign(x *ast.AssignStmt, i int, rhs string) string {
 		}
 	}
 	return f.assign(x.Lhs[i], rhs)
+}
+
+func endsInReturn(b *ast.BlockStmt) bool {
+	if len(b.List) == 0 {
+		return false
+	}
+	_, ok := b.List[len(b.List)-1].(*ast.ReturnStmt)
+	return ok
+}
+
+func (f *glFn) copyAlias() map[types.Object]glAlias {
+	c := map[types.Object]glAlias{}
+	for k, v := range f.alias {
+		c[k] = v
+	}
+	return c
+}
+
+// sameAlias compares the current alias state with the one after the other branch (ignored when that
+// branch does not fall through)
+func (f *glFn) sameAlias(other map[types.Object]glAlias, otherFallsThrough bool) bool {
+	if !otherFallsThrough {
+		return true
+	}
+	if len(other) != len(f.alias) {
+		return false
+	}
+	for k, v := range other {
+		w, ok := f.alias[k]
+		if !ok || exprString(v.home) != exprString(w.home) || exprString(v.key) != exprString(w.key) {
+			return false
+		}
+	}
+	return true
 }
 
 func tuple(parts []string) string {
@@ -1140,16 +1498,26 @@ func (f *glFn) translate() {
 		}
 	}
 	// in-outs: pointer receiver and pointer parameters to repo structs
+	var rets []string
 	if fd.Recv != nil && len(fd.Recv.List[0].Names) == 1 {
 		if _, ok := sig.Recv().Type().(*types.Pointer); ok {
 			f.inouts = append(f.inouts, fd.Recv.List[0].Names[0].Name)
+			f.recvInOut = true
+			rets = append(rets, f.leanType(sig.Recv().Type()))
 		}
 	}
-	var rets []string
-	for _, io := range f.inouts {
-		_ = io
-		rets = append(rets, f.leanType(sig.Recv().Type()))
+	pi := 0
+	for _, fl := range fd.Type.Params.List {
+		for _, n := range fl.Names {
+			if isPtrToRepoStruct(f.p.TypesInfo.Defs[n].Type()) {
+				f.inouts = append(f.inouts, n.Name)
+				f.ptrParams = append(f.ptrParams, pi)
+				rets = append(rets, f.leanType(f.p.TypesInfo.Defs[n].Type()))
+			}
+			pi++
+		}
 	}
+	f.nres = sig.Results().Len()
 	for i := 0; i < sig.Results().Len(); i++ {
 		rets = append(rets, f.leanType(sig.Results().At(i).Type()))
 	}
@@ -1207,6 +1575,9 @@ func (f *glFn) header() string {
 	}
 	for _, fl := range fd.Type.Params.List {
 		for _, n := range fl.Names {
+			if _, isChan := f.p.TypesInfo.Defs[n].Type().Underlying().(*types.Chan); isChan {
+				continue // a channel the function only hands on to calls that are dropped
+			}
 			ps = append(ps, "("+lid(n.Name)+" : "+f.leanType(f.p.TypesInfo.Defs[n].Type())+")")
 			if n.Name != "_" {
 				muts = append(muts, lid(n.Name))
@@ -1221,7 +1592,7 @@ func (f *glFn) header() string {
 }
 
 func genCode() {
-	g := &golean{pkgs: map[string]*packages.Package{}, fns: map[string]*glFn{}, structs: map[string]*types.Named{}, effs: map[string]bool{}, strMode: map[string]bool{}}
+	g := &golean{pkgs: map[string]*packages.Package{}, fns: map[string]*glFn{}, structs: map[string]*types.Named{}, effs: map[string]bool{}, strMode: map[string]bool{}, keyStructs: map[string]bool{}}
 	cfg := &packages.Config{Mode: packages.NeedName | packages.NeedSyntax | packages.NeedTypes | packages.NeedTypesInfo | packages.NeedImports | packages.NeedDeps | packages.NeedFiles, Dir: repo}
 	want := map[string]bool{}
 	for _, t := range glTargets {
@@ -1316,7 +1687,11 @@ func genCode() {
 			out.p("  eff : List Eff")
 			zs = append(zs, "eff := []")
 		}
-		out.p("deriving Repr")
+		if g.keyStructs[name] {
+			out.p("deriving Repr, DecidableEq")
+		} else {
+			out.p("deriving Repr")
+		}
 		out.p("def %s.zero : %s := { %s }", name, name, strings.Join(zs, ", "))
 	}
 	for _, key := range g.order {
